@@ -534,13 +534,24 @@ class SimpleFormula(
         evaluation context rather than the data context.
         """
 
-        variables: list[Variable] = [
-            variable
-            for term in self.__terms
-            for factor in term.factors
-            for variable in get_expression_variables(factor.expr, {})
-            if "value" in variable.roles
-        ]
+        from formulaic.parser.types import Factor
+        from formulaic.utils.code import sanitize_variable_names
+
+        variables: list[Variable] = []
+        for term in self.__terms:
+            for factor in term.factors:
+                if factor.eval_method is Factor.EvalMethod.LOOKUP:
+                    # The name is looked up verbatim; it need not be a valid
+                    # Python identifier (e.g. a quoted column name).
+                    variables.append(Variable(factor.expr, roles=["value"]))
+                elif factor.eval_method is Factor.EvalMethod.PYTHON:
+                    aliases: dict[str, str] = {}
+                    expr = sanitize_variable_names(factor.expr, {}, aliases)
+                    variables.extend(
+                        variable
+                        for variable in get_expression_variables(expr, {}, aliases)
+                        if "value" in variable.roles
+                    )
 
         # Filter out constants like `contr` that are already present in the
         # TRANSFORMS namespace.
